@@ -90,6 +90,9 @@ class MoScalarFunction(abc.ABC):
             float: The converted scalar value.
         """
         y = np.asarray(y)
+        if self._utopia_point is not None:
+            # The scalarizing functions are defined relatively to the utopia point.
+            y = y - self._utopia_point
         return self._scalarize(y)
 
     def normalize(self, yi):
